@@ -27,6 +27,7 @@ import (
 	"time"
 
 	"github.com/fiorix/go-diameter/v4/diam"
+	"github.com/fiorix/go-diameter/v4/diam/datatype"
 	"github.com/fiorix/go-diameter/v4/diam/dict"
 )
 
@@ -105,6 +106,50 @@ func childMain(args []string) {
 			cls = classifyReadErr(err)
 		}
 		fmt.Printf("err=%s in=%d out=%d bytes=%d\n", cls, len(msg), out, after.TotalAlloc-before.TotalAlloc)
+	case "buflen":
+		// the application raises the exported MessageBufferLength at run time, after buffers of
+		// the old length have been pooled; a message between the two lengths follows
+		newLen, _ := strconv.Atoi(args[1])
+		body, _ := strconv.Atoi(args[2])
+		runtime.GOMAXPROCS(1)
+		small := simpleMsg(280, 0x80, 0, 1, 1, diam.NewAVP(264, 0x40, 0, datatype.DiameterIdentity("a")))
+		for i := 0; i < 4; i++ {
+			diam.ReadMessage(bytes.NewReader(small), dict.Default)
+			var w0 bytes.Buffer
+			if m0, err := diam.ReadMessage(bytes.NewReader(small), dict.Default); err == nil {
+				m0.WriteTo(&w0)
+			}
+		}
+		diam.MessageBufferLength = newLen
+		big := simpleMsg(280, 0x80, 0, 2, 2, diam.NewAVP(264, 0x40, 0, datatype.DiameterIdentity(strings.Repeat("h", body-8))))
+		res := "ok"
+		if g := guard(func() {
+			for i := 0; i < 3; i++ {
+				if _, err := diam.ReadMessage(bytes.NewReader(big), dict.Default); err != nil {
+					res = classifyReadErr(err)
+				}
+				diam.ReadMessage(bytes.NewReader(small), dict.Default)
+			}
+		}); g != "" {
+			res = g
+		}
+		// and the other direction: messages of that size are written (the serialisation buffer
+		// is pooled too; small writes before the change have filled that pool)
+		wres := "ok"
+		var sink bytes.Buffer
+		if g := guard(func() {
+			for i := 0; i < 3; i++ {
+				m := diam.NewRequest(280, 0, dict.Default)
+				m.NewAVP(264, 0x40, 0, datatype.DiameterIdentity(strings.Repeat("h", body-8)))
+				sink.Reset()
+				if _, err := m.WriteTo(&sink); err != nil || sink.Len() != m.Len() {
+					wres = "short"
+				}
+			}
+		}); g != "" {
+			wres = g
+		}
+		fmt.Printf("err=%s w=%s\n", strings.ReplaceAll(res, " ", "_"), strings.ReplaceAll(wres, " ", "_"))
 	case "retain":
 		n, _ := strconv.Atoi(args[1])
 		per, _ := strconv.Atoi(args[2])
@@ -219,6 +264,10 @@ func execResource(toks []string) string {
 		d, _ := kvGet(toks, "depth")
 		op, _ := kvGet(toks, "op")
 		return runChild(90*time.Second, "nest", d, op)
+	case "buflen":
+		nl, _ := kvGet(toks, "to")
+		b, _ := kvGet(toks, "body")
+		return runChild(30*time.Second, "buflen", nl, b)
 	case "retain":
 		n, _ := kvGet(toks, "msgs")
 		k, _ := kvGet(toks, "per")
@@ -252,6 +301,10 @@ func genResource(r *RNG, n int, op string, emit func(string)) {
 				emit(fmt.Sprintf("resource nest depth=%d op=%s", d, o))
 			}
 		}
+	case "buflen":
+		for _, c := range [][2]int{{2048, 1500}, {4096, 1025}, {4096, 4000}, {512, 700}, {65536, 30000}} {
+			emit(fmt.Sprintf("resource buflen to=%d body=%d", c[0], c[1]))
+		}
 	case "retain":
 		for _, c := range [][3]int{{2000, 10, 1}, {20000, 10, 1}, {4000, 50, 4}, {20000, 10, 8}, {1000 + r.Intn(3000), 1 + r.Intn(40), 1 + r.Intn(8)}} {
 			emit(fmt.Sprintf("resource retain msgs=%d per=%d g=%d", c[0], c[1], c[2]))
@@ -272,5 +325,6 @@ func init() {
 	executors["resource claim"] = execResource
 	executors["resource nest"] = execResource
 	executors["resource retain"] = execResource
+	executors["resource buflen"] = execResource
 	generators["resource"] = genResource
 }
